@@ -470,6 +470,15 @@ def c09(tier):
                                server=dict(kind='fixed', hex='810161' + '890170' + '8800'),
                                fault=dict(ops=allops, kinds=['oserror', 'exception'], max=2),
                                app=dict(actions=['send_text', 'close'], max_actions=1)))
+    specs.append(sched_spec('reset-while-another-thread-sends', tags, [['loop'], ['send_text']], 1 if q else 2,
+                            'deterministic scheduler of C11/C12: thread 1 runs the real event loop and its recv fails with a socket error (connection reset) '
+                            'or hits EOF while thread 2 is anywhere inside send_text - also in the middle of its sendall, holding the write lock: terminal '
+                            'non-graceful Disconnected, the send returns or raises a WebSocketError, the socket ends up closed',
+                            loop_end='error', hs_separate=True, xval_stride=11))
+    specs.append(sched_spec('reset-arrives-during-sendall', tags, [['loop'], ['send_text']], 1 if q else 2,
+                            'the same, with the event loop asleep in its selector wait (a silent server) until the connection reset arrives WHILE the '
+                            'other thread is in the middle of its sendall, holding the write lock', rst_during_send=True, hs_separate=True, xval_stride=11,
+                            expect_classes=['reset-while-sending']))
     return run_property('C09', tier, specs, 'model_checking', 'transport failures become events', ENV_ASSUMPTIONS + [
         'a socket whose close() call was itself made to fail (or whose shutdown() raised a non-socket exception) is not required to be closed',
         'faults inside ssl handshakes and proxy sockets are outside (C19 covers the proxy)'], LIFE_FUNCS)
